@@ -73,6 +73,10 @@ class WrapperUnit(VU):
         rt.theory.add_once("x690:ObjectIdentifier(str)", lambda: z3.ForAll([s], rt.f_oidstr(rt.f_oid_of_str(s)) == rt.f_str_lstrip(s)))
         rt.theory.note("x690 ObjectIdentifier(text): str(ObjectIdentifier(t)) == t.lstrip('.') (assumed contract of x690)")
 
+        a, b = z3.Const("a", core.OID), z3.Const("b", core.OID)
+        rt.theory.add_once("x690:str(oid)-injective", lambda: z3.ForAll([a, b], z3.Implies(rt.f_oidstr(a) == rt.f_oidstr(b), a == b)))
+        rt.theory.note("str(oid) (dotted decimal) is injective on OIDs (assumed; validated by enumeration)")
+
         def new_oid(i, cls, args, kwargs):
             if args and isinstance(args[0], SStr):
                 return SOid(rt.f_oid_of_str(args[0].e))
@@ -96,6 +100,12 @@ class WrapperUnit(VU):
             return Obj(v.cls, {f: self.py(interp, x) for f, x in v.fields.items()})
         return v
 
+    def distinct(self, interp, keys):
+        for i in range(len(keys)):
+            for j in range(i + 1, len(keys)):
+                interp.ctx.assume(Not(interp.eq(keys[i], keys[j])))
+        return keys
+
     def raw_result(self, interp, method, args, kwargs):
         ctx, rt, k = interp.ctx, self.rt, self.k
         xv = lambda n: self.xv.fresh(ctx, n)
@@ -107,18 +117,22 @@ class WrapperUnit(VU):
         if method == "multiget":
             return [xv("raw_val%d" % j) for j in range(k)]
         if method == "multiset":
-            return PDict([(ctx.fresh_oid("raw_oid%d" % j), xv("raw_val%d" % j)) for j in range(k)])
+            keys = self.distinct(interp, [ctx.fresh_oid("raw_oid%d" % j) for j in range(k)])      # keys of a dict
+            return PDict([(keys[j], xv("raw_val%d" % j)) for j in range(k)])
         if method in ("walk", "multiwalk", "bulkwalk"):
             return GenResult([vb(j) for j in range(k)])
         if method == "bulkget":
             br = get_cls(rt, interp, "puresnmp.util:BulkResult")
-            return Obj(br, {"scalars": PDict([(ctx.fresh_oid("sc_oid%d" % j), xv("sc_val%d" % j)) for j in range(k)]),
-                            "listing": PDict([(ctx.fresh_oid("ls_oid%d" % j), xv("ls_val%d" % j)) for j in range(k)])})
+            sk = self.distinct(interp, [ctx.fresh_oid("sc_oid%d" % j) for j in range(k)])
+            lk = self.distinct(interp, [ctx.fresh_oid("ls_oid%d" % j) for j in range(k)])
+            return Obj(br, {"scalars": PDict([(sk[j], xv("sc_val%d" % j)) for j in range(k)]),
+                            "listing": PDict([(lk[j], xv("ls_val%d" % j)) for j in range(k)])})
         if method in ("table", "bulktable"):
             rows = []
             for j in range(k):
-                rows.append(PDict([("0", ctx.fresh_str("index%d" % j)), (ctx.fresh_str("col%d_a" % j), xv("cell%d_a" % j)),
-                                   (ctx.fresh_str("col%d_b" % j), xv("cell%d_b" % j))]))
+                cols = self.distinct(interp, ["0", ctx.fresh_str("col%d_a" % j), ctx.fresh_str("col%d_b" % j)])
+                rows.append(PDict([("0", ctx.fresh_str("index%d" % j)), (cols[1], xv("cell%d_a" % j)),
+                                   (cols[2], xv("cell%d_b" % j))]))
             return rows
         raise Undecided("raw method %s" % method)
 
@@ -161,12 +175,13 @@ class WrapperUnit(VU):
         except PyExc as pe:
             exc = pe.obj
         T = self.target
+        P = "C16" if "C16" in self.props and interp.prop == "C16" else "C15"
         if m == "set":
             raw_m = "multiset"
         else:
             raw_m = m
         ok = len(calls) == 1 and calls[0][0] == raw_m
-        ctx.check(oname("C15", T, "ensures", "delegates-once-to-the-raw-operation"), ok)
+        ctx.check(oname(P, T, "ensures", "delegates-once-to-the-raw-operation"), ok)
         if not ok:
             return "?"
         raw = calls[0][3]
@@ -177,18 +192,18 @@ class WrapperUnit(VU):
         if m == "set":
             # the value the agent confirmed for the OID that was set (KeyError if it confirmed another one)
             if exc is not None:
-                ctx.check(oname("C15", T, "raises", "only-KeyError-when-the-agent-confirmed-another-oid"),
+                ctx.check(oname(P, T, "raises", "only-KeyError-when-the-agent-confirmed-another-oid"),
                           exc_is(exc, rt.builtin_class("KeyError")))
                 return "raises"
-            ctx.check(oname("C15", T, "ensures", "only-built-in-types"), builtin(result))
-            ctx.check(oname("C15", T, "ensures", "equals-the-pythonised-raw-result"),
+            ctx.check(oname(P, T, "ensures", "only-built-in-types"), builtin(result))
+            ctx.check(oname(P, T, "ensures", "equals-the-pythonised-raw-result"),
                       Or(*[And(interp.eq(kk, SStr(rt.f_str_lstrip(args[0].e))), interp.eq(result, vv)) for kk, vv in want.pairs]))
             return "returns"
-        ctx.check(oname("C15", T, "ensures", "no-exception"), exc is None)
+        ctx.check(oname(P, T, "ensures", "no-exception"), exc is None)
         if exc is not None:
             return "raises"
-        ctx.check(oname("C15", T, "ensures", "only-built-in-types(dictionary-keys-included)"), builtin(result))
-        ctx.check(oname("C15", T, "ensures", "equals-the-element-wise-pythonisation-of-the-raw-result"),
+        ctx.check(oname(P, T, "ensures", "only-built-in-types(dictionary-keys-included)"), builtin(result))
+        ctx.check(oname(P, T, "ensures", "equals-the-element-wise-pythonisation-of-the-raw-result"),
                   deep_eq(interp, result, want))
         return "returns"
 
@@ -229,4 +244,15 @@ def units(tier):
     for m in ("multiget", "multiset", "walk", "multiwalk", "bulkwalk", "bulkget", "table", "bulktable"):
         for k in ks:
             us.append(WrapperUnit(m, k))
+    return us
+
+
+def units_tables(tier):
+    """the pythonic table wrappers also serve C16"""
+    us = []
+    for m in ("table", "bulktable"):
+        for k in (0, 1, 2):
+            u = WrapperUnit(m, k)
+            u.props = ("C15", "C16")
+            us.append(u)
     return us
